@@ -1,5 +1,7 @@
 SPECIFICATION Spec
-CONSTANTS FalsyAll = FALSE
+CONSTANTS Hides = TRUE
+  NestAll = FALSE
+  FalsyAll = FALSE
   Tri = {"run"}
 INVARIANT AsDocumented
 INVARIANT NamedNeverCasts
@@ -12,5 +14,12 @@ INVARIANT Monotone
 INVARIANT LogWithinCaps
 INVARIANT RepeatedUse
 PROPERTY BindingStable
+INVARIANT HidesWrapped
+INVARIANT OuterIndependent
+INVARIANT SameKindAccepted
+INVARIANT CastsAsDocumented
+INVARIANT OuterCallsBound
+INVARIANT RepeatedUseOuter
 INVARIANT Emitted
+INVARIANT EmittedNest
 CHECK_DEADLOCK FALSE
